@@ -514,7 +514,7 @@ def families(tier, seed):
         fams.append(clean_family("clean-plumbing", clean_shapes("line", 6, (1, 2, 3, 4), 0, 2), r2, PLUMBING, seed, core))
 
     from ..motlgen import with_row_index_kinds
-    fams.append(with_row_index_kinds(fams[-1], expect=("survivors-separated", "removed-dominated", "survivors-equal-greedy-model")))  # clean-plumbing x {gapped, reversed}
+    fams.append(with_row_index_kinds(fams[-1], select=lambda c: c[5] and c[4] == 1.6, kinds=("gapped", "reversed", "repeated"), expect=("survivors-separated", "removed-dominated", "survivors-equal-greedy-model")))  # clean-plumbing x {gapped, reversed}
     tm_core = ("peaks-exceed-threshold", "peaks-separated", "supra-voxel-dominated", "peaks-equal-greedy-model",
                "peak-score-is-voxel-score", "peak-position-1based", "peak-angles")
     perms6 = list(itertools.permutations(range(6)))
@@ -533,6 +533,12 @@ def families(tier, seed):
     fams.append(tm_family("tm-5x4x3",
                           Mapped(Product(lat, (60, 50, 30, 10, 1, 0), DIAMETERS, ang_cfg), lambda c: (big, c[0], c[1], c[2]) + tuple(c[3])),
                           seed, tm_core + ("no-peak-without-supra-voxel",)))
+    # diameters that EQUAL lattice distances (1, 2, 3 = |(2,2,1)|): "farther apart than the diameter" is strict, so a voxel exactly
+    # one diameter away from a peak is suppressed (the statement excludes exact ties for particle lists, not for voxel maps)
+    fams.append(tm_family("tm-diameter-equals-lattice-distance",
+                          Union(Mapped(Product(lat, (60, 30, 10), (1.0, 2.0, 3.0)), lambda c: (big, c[0], c[1], c[2], 0, "zxz", "array")),
+                                Product(((6, 1, 1), (3, 2, 1)), perms6, (6, 4, 2), (1.0, 2.0), [0], ["zxz"], ["array"])),
+                          seed, tm_core))
     layouts = ["array|F", "array|view", "array|em", "array|mrc"]
     fams.append(tm_family("tm-map-layouts",
                           Union(Mapped(Product(lat, (60, 30, 10, 1), (1.2, 2.5), (0, 1), layouts), lambda c: (big, c[0], c[1], c[2], c[3], "zxz", c[4])),
